@@ -61,6 +61,10 @@ def items(tier, seed):
     # history: the same database object emptied with Clear() and configured again with another definition of the unit
     for order in (0, 1):
         out.append({"r": "clear_refill", "qt": "length", "cat": "length", "u": "ft", "v": "m", "n": 2, "order": order})
+    # two databases that define one unit differently: an explicit unit_database argument, a quantity of one database used while the other is current
+    for sub_ in ("manager_db_argument", "array_of_foreign_quantity", "alias_after_redefinition"):
+        for order in (0, 1):
+            out.append({"r": "clear_refill", "sub": sub_, "qt": "length", "cat": "length", "u": "ft", "v": "m", "n": 2, "order": order})
     # units spelled as one (unit, 1) pair: the same conversion as the plain spelling, offsets and negative amounts included, every value kind
     for qt, cat, u, v in COVER:
         for vk in ("float", "list", "tuple", "numpy"):
@@ -278,6 +282,38 @@ def run(cfg, V):
         e = cfg["e"]
         res = db.Convert(qt, [(u, e)], [(v, e)], x)
         return {"vals": [res]}
+    if r == "clear_refill" and cfg.get("sub"):
+        f1, f2 = (0.25, 0.3048) if cfg["order"] == 0 else (0.3048, 0.5)
+
+        def mk(f):
+            d_ = UnitDatabase()
+            d_.AddUnitBase("length", "meters", "m")
+            d_.AddUnit("length", "feet", "ft", lambda t, f=f: t / f, lambda t, f=f: t * f)
+            d_.AddCategory("length", "length")
+            return d_
+
+        db1, db2 = mk(f1), mk(f2)
+        if cfg["sub"] == "manager_db_argument":
+            with pushed(db1):
+                m = UnitSystemManager()
+                m.AddUnitSystem("s1", "system one", {"length": "m"})
+                s = Scalar(x, "ft")
+                got = [m.ConvertScalarToCurrent(s, db2).GetValue(), m.ConvertToCurrent("length", "ft", x, db2)[0], m.ConvertScalarToCurrent(s).GetValue()]
+            return {"first": [], "second": got[:2], "dflt": None, "f": (f1, f2), "own": [got[2]]}
+        if cfg["sub"] == "array_of_foreign_quantity":
+            with pushed(db2):
+                q = ObtainQuantity("ft", "length")  # a quantity of db2 ...
+            with pushed(db1):  # ... used while db1 is current: it converts with ITS database whatever object holds it
+                got = [Array(q, [x, x]).GetValues("m")[0], Array.CreateWithQuantity(q, (x,)).GetValues("m")[0], Scalar(q, x).GetValue("m"), q.Convert(x, "m"),
+                       FixedArray(2, q, [x, x]).IndexAsScalar(0, ObtainQuantity("m")).GetValue(), Array(q, [x]).CreateCopy().GetValues("m")[0]]
+            return {"first": [], "second": got, "dflt": None, "f": (f1, f2), "own": []}
+        # alias_after_redefinition: the unit was used WITHOUT a category before its default category is redefined with a non-zero default
+        with pushed(db2):
+            Scalar(1.0, "ft"), Array([1.0], "ft"), ObtainQuantity("ft")
+            db2.AddCategory("length", "length", override=True, default_unit="m", default_value=V["x1"])
+            got = [Scalar(ObtainQuantity("ft")).GetValue("m"), Scalar.CreateWithQuantity(ObtainQuantity("ft")).GetValue("m"), Scalar("length", unit="ft").GetValue("m"),
+                   Scalar(ObtainQuantity("ft", "length")).GetValue("m")]
+        return {"first": [], "second": [], "dflt": None, "f": (f1, f2), "own": [], "defaults": got}
     if r == "clear_refill":
         f1, f2 = (0.25, 0.3048) if cfg["order"] == 0 else (0.3048, 0.5)
         sdb = UnitDatabase()
@@ -326,6 +362,10 @@ def props(cfg, T, obs):
         from symx.core import rv
 
         f1, f2 = (rv(f) for f in obs["f"])
+        if cfg.get("sub"):
+            return [("with two databases defining the unit differently, every route converts with the database it is given / the database the quantity belongs to; a default "
+                     "redefined for a category reaches quantities obtained by unit alone before",
+                     z3.And(*[approx(o, T["x0"] * f2) for o in obs["second"]], *[approx(o, T["x0"] * f1) for o in obs["own"]], *[approx(o, T["x1"]) for o in obs.get("defaults", [])]))]
         return [("after Clear() and a new configuration of the same database object every route converts with the NEW definition of the unit",
                  z3.And(*[approx(o, T["x0"] * f1) for o in obs["first"][:3]], approx(obs["first"][3], T["x1"] * f1), *[approx(o, T["x0"] * f2) for o in obs["second"]], approx(obs["dflt"], T["x1"] * f2)))]
     if r == "db.Convert.exp1":
